@@ -69,6 +69,10 @@ func runC11(em *vEmitter, r *vRng) {
 			go func(c int, seed uint64) {
 				defer wg.Done()
 				rr := vNewRng(seed)
+				api := api
+				if c%2 == 1 {
+					api = st.GetInterface() // a handle of its own, like another listener of the same agent
+				}
 				n := 4 + rr.intn(5)
 				for i := 0; i < n; i++ {
 					o := c11Op{client: c, user: users[rr.intn(nu)], pw: pws[rr.intn(len(pws))]}
@@ -114,9 +118,13 @@ func runC11(em *vEmitter, r *vRng) {
 		// let queued internal upgrades drain, then read the final state sequentially
 		time.Sleep(30 * time.Millisecond)
 		for _, u := range users[:nu] {
-			for _, pw := range pws {
+			for pi, pw := range pws {
 				o := c11Op{client: 1000, kind: "auth", user: u, pw: pw, call: int64(time.Since(t0))}
-				ok, adm, _, _ := api.Authenticate(u, pw)
+				rapi := api
+				if pi%2 == 1 {
+					rapi = st.GetInterface()
+				}
+				ok, adm, _, _ := rapi.Authenticate(u, pw)
 				o.ok, o.resAdmin = ok, ok && adm
 				o.ret = int64(time.Since(t0))
 				ops = append(ops, o)
@@ -238,6 +246,65 @@ func runC11(em *vEmitter, r *vRng) {
 			Coq:   fmt.Sprintf("LinHist %s %s", cList(init), cList(xs)),
 			Human: map[string]interface{}{"variant": variant, "ops": len(ops), "mode": "local"}})
 		vStats["ops"] += len(ops)
+		ms.cleanup()
+	}
+	// directed histories across handles: a login through one handle, an acknowledged change of the same
+	// user through another, then the old and new credentials through the first again (strictly sequential)
+	for xi := 0; xi < 10; xi++ {
+		ms := mNewStore("c11x", r, 1)
+		var init []string
+		ms.plant("root", true, 1, 1600000000, r.bytes(16), []byte("rootpw"), "")
+		init = append(init, fmt.Sprintf("(%s, (%s, %s))", cS("root"), cS("rootpw"), cB(true)))
+		vadm := xi%2 == 0
+		ms.plant("victim", vadm, 1, 1600000000, r.bytes(16), []byte("old"), "")
+		init = append(init, fmt.Sprintf("(%s, (%s, %s))", cS("victim"), cS("old"), cB(vadm)))
+		st, err := NewStore(ms.cfgfile, "", "", "", "")
+		if err != nil {
+			panic(err)
+		}
+		hx, hy := st.GetInterface(), st.GetInterface()
+		var ops []c11Op
+		t0 := time.Now()
+		rec := func(o c11Op, f func(o *c11Op)) {
+			o.call = int64(time.Since(t0))
+			f(&o)
+			o.ret = int64(time.Since(t0))
+			ops = append(ops, o)
+		}
+		auth := func(c int, h *Store, pw string) {
+			rec(c11Op{client: c, kind: "auth", user: "victim", pw: pw}, func(o *c11Op) {
+				ok, adm, _, _ := h.Authenticate("victim", pw)
+				o.ok, o.resAdmin = ok, ok && adm
+			})
+		}
+		auth(1, hx, "old")
+		auth(1, hx, "old")
+		switch xi % 5 {
+		case 0:
+			rec(c11Op{client: 2, kind: "update", user: "victim", pw: "new"}, func(o *c11Op) { o.ok = hy.Update("victim", "new") == nil })
+		case 1:
+			rec(c11Op{client: 2, kind: "remove", user: "victim"}, func(o *c11Op) { o.ok = hy.Remove("victim") == nil })
+		case 2:
+			rec(c11Op{client: 2, kind: "setadmin", user: "victim", admin: !vadm}, func(o *c11Op) { o.ok = hy.SetAdmin("victim", !vadm) == nil })
+		case 3:
+			rec(c11Op{client: 2, kind: "remove", user: "victim"}, func(o *c11Op) { o.ok = hy.Remove("victim") == nil })
+			rec(c11Op{client: 2, kind: "add", user: "victim", pw: "new", admin: !vadm}, func(o *c11Op) { o.ok = hy.Add("victim", "new", !vadm) == nil })
+		case 4:
+			rec(c11Op{client: 2, kind: "update", user: "victim", pw: "new"}, func(o *c11Op) { o.ok = hy.Update("victim", "new") == nil })
+			rec(c11Op{client: 2, kind: "update", user: "victim", pw: "old"}, func(o *c11Op) { o.ok = hy.Update("victim", "old") == nil })
+			rec(c11Op{client: 2, kind: "setadmin", user: "victim", admin: !vadm}, func(o *c11Op) { o.ok = hy.SetAdmin("victim", !vadm) == nil })
+		}
+		auth(1, hx, "old")
+		auth(1, hx, "new")
+		auth(3, st.GetInterface(), "old")
+		auth(2, hy, "old")
+		var xs []string
+		for _, o := range ops {
+			xs = append(xs, o.coq())
+		}
+		em.emit(vCase{Prop: "C11", Kind: "history", Class: "history/across-handles", Nontrivial: true,
+			Coq:   fmt.Sprintf("LinHist %s %s", cList(init), cList(xs)),
+			Human: map[string]interface{}{"variant": xi % 5, "ops": len(ops), "mode": "off"}})
 		ms.cleanup()
 	}
 	// directed histories: readers against a writer that only flips the admin status of the users they log
